@@ -14,6 +14,8 @@ THEOREMS = [
     "MM.reject_restores_cell",
     "MM.reject_restores_ham",
     "MM.reject_restores_exchange",
+    "MM.reject_restores_composite_insertion",
+    "MM.reject_restores_composite_deletion",
     "MM.inv_validate",
     "MM.inv_trial",
     "MM.history_restores",
